@@ -1,5 +1,6 @@
 use std::collections::{HashMap, HashSet};
 use std::sync::Arc;
+use shared::rule_index::WILDCARD;
 use shared::triple::Triple;
 use rayon::prelude::*;
 use crate::reasoning::materialisation::replace_variables_with_bound_values;
@@ -31,11 +32,18 @@ impl Reasoner {
                     || HashSet::new(),
                     |mut local_set, triple1| {
                         // Use only the predicate for candidate rule lookup
-                        let candidate_rule_ids = self.rule_index.query_candidate_rules(
+                        let mut candidate_rule_ids = self.rule_index.query_candidate_rules(
                             None,
                             Some(triple1.predicate),
                             None,
                         );
+                        // Premises with a variable predicate are indexed under WILDCARD
+                        // and can be matched by a fact with any predicate.
+                        candidate_rule_ids.extend(self.rule_index.query_candidate_rules(
+                            None,
+                            Some(WILDCARD),
+                            None,
+                        ));
                         for &rule_id in candidate_rule_ids.iter() {
                             let rule = &self.rules[rule_id];
                             match rule.premise.len() {
